@@ -457,6 +457,18 @@ Proof.
   - unfold parse. rewrite lex_render by assumption. apply (parse_render qs [] []).
 Qed.
 
+(* distinct texts (the content of a std::set) are declared once each *)
+Theorem writer_each_once (qs : list qname) :
+  forallb valid_qname qs = true -> NoDup (map qname_text qs) ->
+  exists out, write_forward_declarations (map qname_text qs) = Some out /\
+              exists declared, parse out = Some declared /\ NoDup declared /\
+                               forall q, In q declared <-> In q qs.
+Proof.
+  intros Hv Hnd. destruct (writer_correct qs Hv) as (out & Hw & Hp).
+  exists out. split; [exact Hw|]. exists qs. split; [exact Hp|]. split; [|tauto].
+  exact (NoDup_map_inv _ _ Hnd).
+Qed.
+
 (* a text is the text of at most one valid qualified name *)
 Lemma qname_text_inj q1 q2 :
   valid_qname q1 = true -> valid_qname q2 = true -> qname_text q1 = qname_text q2 -> q1 = q2.
